@@ -1,218 +1,92 @@
 /-
-  WS.Lemmas.KeepaliveNFP — no false positive: invariants of the keepalive loop when the peer answers every
-  ping within the timeout and sends no other pongs.
+  WS.Lemmas.KeepaliveNFP — no false positive: the invariant of the keepalive loop when the peer answers every ping
+  within the timeout — whatever else it sends (data, further or unsolicited pongs).
 -/
 import WS.Lemmas.Keepalive
 namespace WS.Lemmas.Keepalive
 open WS.Model.Keepalive
 
-/-- time of the last pong in a list of arrivals (0 if none) -/
-def lastPongOf (acc : Nat) (l : List (Nat × Kind)) : Nat :=
-  l.foldl (fun acc x => if x.2 = .pong then x.1 else acc) acc
-
-theorem lastPongOf_snoc (acc : Nat) (l : List (Nat × Kind)) (x : Nat × Kind) :
-    lastPongOf acc (l ++ [x]) = if x.2 = .pong then x.1 else lastPongOf acc l := by
-  simp [lastPongOf, List.foldl_append]
-
 abbrev Sorted (l : List (Nat × Kind)) : Prop := List.Pairwise (fun x y => x.1 ≤ y.1) l
-
-theorem lastPongOf_ge_acc : ∀ (l : List (Nat × Kind)) (acc : Nat), Sorted l → (∀ y ∈ l, acc ≤ y.1) →
-    acc ≤ lastPongOf acc l := by
-  intro l
-  induction l with
-  | nil => intro acc _ _; exact Nat.le_refl _
-  | cons x r ih =>
-    intro acc hs hge
-    have hs' := List.pairwise_cons.mp hs
-    simp only [lastPongOf, List.foldl_cons]
-    by_cases hp : x.2 = .pong
-    · simp only [hp, ↓reduceIte]
-      have := ih x.1 hs'.2 (fun y hy => hs'.1 y hy)
-      have h1 := hge x (by simp)
-      exact Nat.le_trans h1 this
-    · simp only [hp, ↓reduceIte]
-      exact ih acc hs'.2 (fun y hy => hge y (by simp [hy]))
-
-/-- every pong in a sorted list is no later than the last one -/
-theorem le_lastPongOf : ∀ (l : List (Nat × Kind)) (acc : Nat) (a : Nat), Sorted l → (a, Kind.pong) ∈ l →
-    a ≤ lastPongOf acc l := by
-  intro l
-  induction l with
-  | nil => intro acc a _ h; simp at h
-  | cons x r ih =>
-    intro acc a hs hm
-    have hs' := List.pairwise_cons.mp hs
-    simp only [lastPongOf, List.foldl_cons]
-    rcases List.mem_cons.mp hm with rfl | hm'
-    · simp only [↓reduceIte]
-      exact lastPongOf_ge_acc r a hs'.2 (fun y hy => hs'.1 y hy)
-    · exact ih _ a hs'.2 hm'
-
-/-- the last pong is one of the list (or the initial value) -/
-theorem lastPongOf_mem : ∀ (l : List (Nat × Kind)) (acc : Nat),
-    lastPongOf acc l = acc ∨ (lastPongOf acc l, Kind.pong) ∈ l := by
-  intro l
-  induction l with
-  | nil => intro acc; exact Or.inl rfl
-  | cons x r ih =>
-    intro acc
-    simp only [lastPongOf, List.foldl_cons]
-    by_cases hp : x.2 = .pong
-    · simp only [hp, ↓reduceIte]
-      rcases ih x.1 with h | h
-      · right
-        simp only [lastPongOf] at h
-        rw [h]
-        have : x = (x.1, Kind.pong) := by rw [← hp]
-        rw [← this]; simp
-      · exact Or.inr (List.mem_cons_of_mem _ h)
-    · simp only [hp, ↓reduceIte]
-      rcases ih acc with h | h
-      · exact Or.inl h
-      · exact Or.inr (List.mem_cons_of_mem _ h)
-
-/-! ### what `advance` leaves alone, and how far it gets -/
-
-theorem fire_fields (iv : Nat) (s : St) :
-    (fire iv s).arr = s.arr ∧ (fire iv s).lastPong = s.lastPong ∧ (fire iv s).now = s.now ∧
-    (fire iv s).wake = s.wake + iv := by
-  unfold fire; split <;> simp
-
-theorem advance_fields (iv : Nat) : ∀ (n : Nat) (s : St) (t : Nat),
-    (advance iv n s t).arr = s.arr ∧ (advance iv n s t).lastPong = s.lastPong ∧ (advance iv n s t).now = s.now ∧
-    s.wake ≤ (advance iv n s t).wake := by
-  intro n
-  induction n with
-  | zero => intro s t; exact ⟨rfl, rfl, rfl, Nat.le_refl _⟩
-  | succ m ih =>
-    intro s t
-    rw [advance]
-    split
-    · obtain ⟨a, b, c, d⟩ := ih (fire iv s) t
-      obtain ⟨f1, f2, f3, f4⟩ := fire_fields iv s
-      exact ⟨a.trans f1, b.trans f2, c.trans f3, by omega⟩
-    · split
-      · split
-        · obtain ⟨f1, f2, f3, f4⟩ := fire_fields iv { s with sched := ‹_› }
-          exact ⟨f1, f2, f3, by simp only [] at f4; omega⟩
-        · exact ⟨rfl, rfl, rfl, Nat.le_refl _⟩
-        · exact ⟨rfl, rfl, rfl, Nat.le_refl _⟩
-      · exact ⟨rfl, rfl, rfl, Nat.le_refl _⟩
-
-/-- with enough fuel every ping due before `t` is sent: afterwards the next wake is not before `t` -/
-theorem advance_reaches (iv : Nat) (hiv : 0 < iv) : ∀ (n : Nat) (s : St) (t : Nat), t < s.wake + n →
-    t ≤ (advance iv n s t).wake := by
-  intro n
-  induction n with
-  | zero => intro s t h; rw [advance]; omega
-  | succ m ih =>
-    intro s t h
-    rw [advance]
-    split
-    · have := ih (fire iv s) t (by rw [(fire_fields iv s).2.2.2]; omega)
-      exact this
-    · split
-      · split
-        · rw [(fire_fields iv _).2.2.2]; simp only []; omega
-        · simp only []; omega
-        · omega
-      · omega
-
-end WS.Lemmas.Keepalive
-
-namespace WS.Lemmas.Keepalive
-open WS.Model.Keepalive
-
-/-- the peer's pongs are answers: each arrives within `to` after a ping tick `k·iv` (k ≥ 2) -- or before
-    the first ping -- and every ping whose answer window lies before the horizon gets one -/
-structure Responsive (iv to horizon : Nat) (arr0 : List (Nat × Kind)) : Prop where
-  sorted : Sorted arr0
-  answers : ∀ a, (a, Kind.pong) ∈ arr0 → a < 2 * iv ∨ ∃ k, 2 ≤ k ∧ k * iv < a ∧ a ≤ k * iv + to
-  answered : ∀ k, 2 ≤ k → k * iv + to < horizon → ∃ a, (a, Kind.pong) ∈ arr0 ∧ k * iv < a ∧ a ≤ k * iv + to
-
-/-- invariant of the loop at iteration boundaries -/
-structure NInv (iv horizon : Nat) (arr0 : List (Nat × Kind)) (s : St) : Prop where
-  pre : ∃ pre, arr0 = pre ++ s.arr ∧ (∀ x ∈ pre, x.1 ≤ s.now) ∧ s.lastPong = lastPongOf 0 pre
-  fut : ∀ x ∈ s.arr, s.now ≤ x.1
-  pinv : PInv iv s
-  due : s.now ≤ s.wake
-  hz : s.now ≤ horizon
 
 theorem sorted_suffix {pre suf : List (Nat × Kind)} (h : Sorted (pre ++ suf)) : Sorted suf :=
   (List.pairwise_append.mp h).2.1
 
-/-- **the check cannot fire** in a state satisfying the invariant when the peer is responsive -/
-theorem ninv_good (iv to horizon : Nat) (arr0 : List (Nat × Kind)) (hto : to < iv)
-    (hr : Responsive iv to horizon arr0) (s : St) (h : NInv iv horizon arr0 s) : checkFails to s = false := by
+/-! ### what one sleep of the main loop does to the ping thread's fields -/
+
+theorem fire_fields (iv : Nat) (s : St) :
+    (fire iv s).arr = s.arr ∧ (fire iv s).lastPong = s.lastPong ∧ (fire iv s).now = s.now ∧
+    (fire iv s).wake = s.wake + iv ∧ (fire iv s).first = false := by
+  unfold fire; split <;> simp_all
+
+theorem fire_sched (iv : Nat) (s : St) (r : List Bool) :
+    (fire iv { s with sched := r }).lastPing = (fire iv s).lastPing := by
+  unfold fire; split <;> rfl
+
+/-- a sleep shorter than the interval lets at most one ping fall due: afterwards the state is the old one (no ping: the
+    next one is due at or after the wake-up) or the one after exactly one `fire` (it was due at or before the wake-up). -/
+theorem advance_rel (iv : Nat) (n : Nat) (s : St) (t : Nat) (hn : 2 ≤ n) (hlt : t < s.wake + iv) :
+    (advance iv n s t).arr = s.arr ∧ (advance iv n s t).lastPong = s.lastPong ∧ (advance iv n s t).now = s.now ∧
+    (((advance iv n s t).lastPing = s.lastPing ∧ (advance iv n s t).wake = s.wake ∧
+        (advance iv n s t).first = s.first ∧ t ≤ s.wake) ∨
+     ((advance iv n s t).lastPing = (fire iv s).lastPing ∧ (advance iv n s t).wake = s.wake + iv ∧
+        (advance iv n s t).first = false ∧ s.wake ≤ t)) := by
+  obtain ⟨m, rfl⟩ : ∃ m, n = m + 1 := ⟨n - 1, by omega⟩
+  obtain ⟨f1, f2, f3, f4, f5⟩ := fire_fields iv s
+  rw [advance]
+  split
+  · rename_i hw
+    rw [advance_noop iv m (fire iv s) t (by rw [f4]; exact hlt)]
+    exact ⟨f1, f2, f3, Or.inr ⟨rfl, f4, f5, by omega⟩⟩
+  · split
+    · rename_i hw
+      split
+      · rename_i rest hs
+        obtain ⟨g1, g2, g3, g4, g5⟩ := fire_fields iv { s with sched := rest }
+        exact ⟨g1, g2, g3, Or.inr ⟨fire_sched iv s rest, g4, g5, by omega⟩⟩
+      · exact ⟨rfl, rfl, rfl, Or.inl ⟨rfl, rfl, rfl, by omega⟩⟩
+      · exact ⟨rfl, rfl, rfl, Or.inl ⟨rfl, rfl, rfl, by omega⟩⟩
+    · exact ⟨rfl, rfl, rfl, Or.inl ⟨rfl, rfl, rfl, by omega⟩⟩
+
+/-- the peer answers every ping: sorted arrivals in which every ping (at `k·iv`, k ≥ 2) whose answer window lies before
+    the horizon is followed by a pong within `to`. Nothing is assumed about the other arrivals. -/
+structure Answering (iv to horizon : Nat) (arr0 : List (Nat × Kind)) : Prop where
+  sorted : Sorted arr0
+  answered : ∀ k, 2 ≤ k → k * iv + to < horizon → ∃ a, (a, Kind.pong) ∈ arr0 ∧ k * iv < a ∧ a ≤ k * iv + to
+
+/-- invariant of the loop at iteration boundaries: either the last timed ping has been answered in time
+    (`last_ping_tm ≤ last_pong_tm ≤ last_ping_tm + to`), or it is outstanding, its answer window is still open and its
+    answer is among the arrivals to come. -/
+structure AInv (iv to horizon : Nat) (arr0 : List (Nat × Kind)) (s : St) : Prop where
+  pre : ∃ pre, arr0 = pre ++ s.arr ∧ ∀ x ∈ pre, x.1 ≤ s.now
+  fut : ∀ x ∈ s.arr, s.now ≤ x.1
+  pinv : PInv iv s
+  due : s.now ≤ s.wake
+  hz : s.now ≤ horizon
+  qn : s.lastPong ≤ s.now
+  st : (s.lastPing ≤ s.lastPong ∧ s.lastPong ≤ s.lastPing + to) ∨
+       (s.lastPong < s.lastPing ∧ s.first = false ∧ s.wake = s.lastPing + iv ∧ s.lastPing ≤ s.now ∧
+         s.now ≤ s.lastPing + to ∧
+         (s.lastPing + to < horizon → ∃ a, (a, Kind.pong) ∈ s.arr ∧ s.lastPing < a ∧ a ≤ s.lastPing + to))
+
+/-- **the check cannot fire** in a state satisfying the invariant -/
+theorem ainv_good (iv to horizon : Nat) (arr0 : List (Nat × Kind)) (s : St) (h : AInv iv to horizon arr0 s) :
+    checkFails to s = false := by
   unfold checkFails
-  by_cases h0 : s.lastPing = 0
-  · simp [h0]
-  by_cases h1 : s.now - s.lastPing > to
-  · -- the answer window of the last ping is over: its answer has been read, and nothing later
-    have hnf : s.first = false := by
-      cases hf : s.first with
-      | false => rfl
-      | true => exact absurd (h.pinv.fst hf).2.2 h0
-    obtain ⟨hw, _, hlp⟩ := h.pinv.rest hnf
-    have hlen : s.pings.length ≠ 0 := by
-      intro hl; rw [hl] at hlp; simp at hlp; exact h0 hlp
-    simp only [hlen, ↓reduceIte] at hlp
-    -- T = k·iv
-    have hT : s.lastPing = (s.pings.length + 1) * iv := by
-      rw [hlp, hw]; rw [Nat.add_mul (s.pings.length + 1) 1]; omega
-    have hk2 : 2 ≤ s.pings.length + 1 := by omega
-    obtain ⟨pre, hsplit, hpast, hlq⟩ := h.pre
-    have hwin : (s.pings.length + 1) * iv + to < horizon := by
-      rw [← hT]; have := h.hz; omega
-    obtain ⟨a, hmem, ha1, ha2⟩ := hr.answered (s.pings.length + 1) hk2 hwin
-    rw [← hT] at ha1 ha2
-    -- the answer is among the consumed arrivals
-    have hin : (a, Kind.pong) ∈ pre := by
-      rw [hsplit] at hmem
-      rcases List.mem_append.mp hmem with hh | hh
-      · exact hh
-      · have := h.fut _ hh; simp only [] at this; omega
-    have hsp : Sorted pre := by
-      have := hr.sorted; rw [hsplit] at this; exact (List.pairwise_append.mp this).1
-    have hb1 : a ≤ s.lastPong := by rw [hlq]; exact le_lastPongOf pre 0 a hsp hin
-    -- and the last pong read is itself an answer to that same ping
-    have hb2 : s.lastPong ≤ s.lastPing + to := by
-      rcases lastPongOf_mem pre 0 with hz0 | hm
-      · rw [← hlq] at hz0; omega
-      · rw [← hlq] at hm
-        have hbnow : s.lastPong ≤ s.now := hpast _ hm
-        have hm0 : (s.lastPong, Kind.pong) ∈ arr0 := by rw [hsplit]; exact List.mem_append_left _ hm
-        rcases hr.answers _ hm0 with hlt | ⟨k', hk', hc1, hc2⟩
-        · have : 2 * iv ≤ s.lastPing := by rw [hT]; exact Nat.mul_le_mul_right iv hk2
-          omega
-        · -- k'·iv < lastPong ≤ now ≤ wake = T + iv  ⇒  k' ≤ k
-          have hwk : s.wake = s.lastPing + iv := by rw [hlp]; have : iv ≤ s.wake := by rw [hw]; exact Nat.le_mul_of_pos_left iv (by omega)
-                                                    omega
-          have hlt : k' * iv < (s.pings.length + 1 + 1) * iv := by
-            have : (s.pings.length + 1 + 1) * iv = s.lastPing + iv := by rw [hT, Nat.add_mul (s.pings.length + 1) 1]; omega
-            rw [this]; have := h.due; omega
-          have hkle : k' < s.pings.length + 1 + 1 := Nat.lt_of_mul_lt_mul_right hlt
-          by_cases hke : k' = s.pings.length + 1
-          · rw [hke, ← hT] at hc2; exact hc2
-          · -- an answer to an older ping cannot come after the answer `a` to the last one
-            have hk'' : k' + 1 ≤ s.pings.length + 1 := by omega
-            have : (k' + 1) * iv ≤ (s.pings.length + 1) * iv := Nat.mul_le_mul_right iv hk''
-            rw [Nat.add_mul k' 1] at this
-            omega
-    have hb0 : ¬ s.lastPong < s.lastPing := by omega
-    have hb3 : ¬ s.lastPong - s.lastPing > to := by omega
-    simp [hb0, hb3]
-  · simp [h1]
+  rcases h.st with ⟨h1, h2⟩ | ⟨_, _, _, _, h5, _⟩
+  · have a : ¬ s.lastPong < s.lastPing := by omega
+    have b : ¬ s.lastPong - s.lastPing > to := by omega
+    simp [a, b]
+  · have a : ¬ s.now - s.lastPing > to := by omega
+    simp [a]
 
-end WS.Lemmas.Keepalive
+theorem pinv_same (iv : Nat) (s s' : St) (h : PInv iv s) (e1 : s'.first = s.first) (e2 : s'.pings = s.pings)
+    (e3 : s'.wake = s.wake) (e4 : s'.lastPing = s.lastPing) : PInv iv s' :=
+  ⟨fun hf => by rw [e2, e3, e4]; exact h.fst (e1 ▸ hf), fun hf => by rw [e2, e3, e4]; exact h.rest (e1 ▸ hf)⟩
 
-namespace WS.Lemmas.Keepalive
-open WS.Model.Keepalive
-
-/-- `consume` keeps the invariant (time does not move; the head arrival, if due, joins the consumed ones) -/
-theorem ninv_consume (iv horizon : Nat) (arr0 : List (Nat × Kind)) (hs0 : Sorted arr0) (s : St)
-    (h : NInv iv horizon arr0 s) : NInv iv horizon arr0 (consume s) := by
-  obtain ⟨pre, hsplit, hpast, hlq⟩ := h.pre
+/-- `consume` keeps the invariant (time does not move; a pong answers the outstanding ping, or is not timed) -/
+theorem ainv_consume (iv to horizon : Nat) (arr0 : List (Nat × Kind)) (hs0 : Sorted arr0) (s : St)
+    (h : AInv iv to horizon arr0 s) : AInv iv to horizon arr0 (consume s) := by
+  obtain ⟨pre, hsplit, hpast⟩ := h.pre
   unfold consume
   cases harr : s.arr with
   | nil => exact h
@@ -232,73 +106,150 @@ theorem ninv_consume (iv horizon : Nat) (arr0 : List (Nat × Kind)) (hs0 : Sorte
         rcases List.mem_append.mp hy with hh | hh
         · exact hpast y hh
         · simp at hh; subst hh; exact hd
-      have pinv' : ∀ s' : St, s'.first = s.first → s'.pings = s.pings → s'.wake = s.wake → s'.lastPing = s.lastPing →
-          PInv iv s' := fun s' e1 e2 e3 e4 =>
-        ⟨fun hf => by rw [e2, e3, e4]; exact h.pinv.fst (e1 ▸ hf), fun hf => by rw [e2, e3, e4]; exact h.pinv.rest (e1 ▸ hf)⟩
+      have hfut' : ∀ y ∈ rest, s.now ≤ y.1 := fun y hy => by have := hrest y hy; omega
       cases k with
       | pong =>
-        refine ⟨⟨pre ++ [(a, .pong)], hpre', hpast', ?_⟩, fun y hy => by have := hrest y hy; simp only []; omega,
-          pinv' _ rfl rfl rfl rfl, h.due, h.hz⟩
-        simp only [lastPongOf_snoc, ↓reduceIte]; exact han.symm
+        simp only [gen_pongStamp, Bool.true_and]
+        rcases h.st with ⟨h1, h2⟩ | ⟨h1, h2, h3, h4, h5, _⟩
+        · -- the last timed ping is answered already: this pong is not timed
+          have hn : ¬ s.lastPong < s.lastPing := by omega
+          simp only [hn, decide_false, Bool.not_false, ↓reduceIte]
+          exact ⟨⟨_, hpre', hpast'⟩, hfut', pinv_same iv s _ h.pinv rfl rfl rfl rfl, h.due, h.hz, h.qn, Or.inl ⟨h1, h2⟩⟩
+        · -- the answer to the outstanding ping, inside its window
+          simp only [h1, decide_true, Bool.not_true, Bool.false_eq_true, ↓reduceIte]
+          exact ⟨⟨_, hpre', hpast'⟩, hfut', pinv_same iv s _ h.pinv rfl rfl rfl rfl, h.due, h.hz, Nat.le_refl _,
+            Or.inl ⟨h4, h5⟩⟩
       | data =>
-        refine ⟨⟨pre ++ [(a, .data)], hpre', hpast', ?_⟩, fun y hy => by have := hrest y hy; simp only []; omega,
-          pinv' _ rfl rfl rfl rfl, h.due, h.hz⟩
-        simp only [lastPongOf_snoc]; simpa using hlq
+        refine ⟨⟨_, hpre', hpast'⟩, hfut', pinv_same iv s _ h.pinv rfl rfl rfl rfl, h.due, h.hz, h.qn, ?_⟩
+        rcases h.st with hst | ⟨h1, h2, h3, h4, h5, h6⟩
+        · exact Or.inl hst
+        · refine Or.inr ⟨h1, h2, h3, h4, h5, fun hh => ?_⟩
+          obtain ⟨b, hb, hb1, hb2⟩ := h6 hh
+          rw [harr] at hb
+          rcases List.mem_cons.mp hb with hc | hc
+          · cases hc
+          · exact ⟨b, hc, hb1, hb2⟩
     · simp only [hd, ↓reduceIte]
       exact h
 
 /-- one iteration of the loop (not cut at the horizon) keeps the invariant -/
-theorem ninv_iter (iv to horizon : Nat) (arr0 : List (Nat × Kind)) (hiv : 0 < iv) (hs0 : Sorted arr0) (s : St)
-    (h : NInv iv horizon arr0 s) (hcut : (!ready s && decide (target to s > horizon)) = false) :
-    NInv iv horizon arr0 (iter iv to s) := by
+theorem ainv_iter (iv to horizon : Nat) (arr0 : List (Nat × Kind)) (hto : to < iv)
+    (hr : Answering iv to horizon arr0) (s : St) (h : AInv iv to horizon arr0 s)
+    (hcut : (!ready s && decide (target to s > horizon)) = false) :
+    AInv iv to horizon arr0 (iter iv to s) := by
+  have hs0 := hr.sorted
+  have hdue := h.due
+  have hqn := h.qn
   unfold iter
-  by_cases hr : ready s = true
-  · simp only [hr, ↓reduceIte]
-    exact ninv_consume iv horizon arr0 hs0 s h
-  · have hr' : ready s = false := by simpa using hr
+  by_cases hrd : ready s = true
+  · simp only [hrd, ↓reduceIte]
+    exact ainv_consume iv to horizon arr0 hs0 s h
+  · have hr' : ready s = false := by simpa using hrd
     simp only [hr', Bool.false_eq_true, ↓reduceIte]
     have htz : target to s ≤ horizon := by
       simp only [hr', Bool.not_false, Bool.true_and, decide_eq_false_iff_not] at hcut; omega
     have htg := target_ge to s
-    obtain ⟨a1, a2, a3, a4⟩ := advance_fields iv (target to s + 2) s (target to s)
-    have hreach := advance_reaches iv hiv (target to s + 2) s (target to s) (by omega)
-    obtain ⟨pre, hsplit, hpast, hlq⟩ := h.pre
+    have htl := target_le to s
+    obtain ⟨pre, hsplit, hpast⟩ := h.pre
+    -- no remaining arrival lies before `t`: `t` is at most the head's time
+    have hhead : ∀ y ∈ s.arr, target to s ≤ y.1 := by
+      intro y hy
+      unfold target
+      cases harr : s.arr with
+      | nil => rw [harr] at hy; simp at hy
+      | cons x rest =>
+        obtain ⟨a, k⟩ := x
+        simp only []
+        have hsuf : Sorted ((a, k) :: rest) := by
+          have := hs0; rw [hsplit, harr] at this; exact sorted_suffix this
+        have hay : a ≤ y.1 := by
+          rw [harr] at hy
+          rcases List.mem_cons.mp hy with rfl | hh
+          · exact Nat.le_refl _
+          · exact (List.pairwise_cons.mp hsuf).1 y hh
+        have hna : s.now < a := by
+          simp only [ready, harr, decide_eq_false_iff_not, Nat.not_le] at hr'; exact hr'
+        split <;> omega
+    obtain ⟨a1, a2, a3, acase⟩ := advance_rel iv (target to s + 2) s (target to s) (by omega)
+      (by have := h.due; omega)
+    have p1 := pinv_advance iv (target to s + 2) s (target to s) h.pinv
+    generalize advance iv (target to s + 2) s (target to s) = s1 at a1 a2 a3 acase p1
     -- the state after sleeping until `t`
-    have hmid : NInv iv horizon arr0 { advance iv (target to s + 2) s (target to s) with now := target to s } := by
-      refine ⟨⟨pre, by simp only []; rw [a1]; exact hsplit, fun y hy => by have := hpast y hy; simp only []; omega,
-        by simp only []; rw [a2]; exact hlq⟩, ?_, ?_, by simp only []; exact hreach, htz⟩
-      · -- no remaining arrival lies before `t`: `t` is at most the head's time
-        intro y hy
-        simp only [] at hy ⊢
-        rw [a1] at hy
-        unfold target
-        cases harr : s.arr with
-        | nil => rw [harr] at hy; simp at hy
-        | cons x rest =>
-          obtain ⟨a, k⟩ := x
+    have hmid : AInv iv to horizon arr0 { s1 with now := target to s } := by
+      have hpre1 : ∃ pre, arr0 = pre ++ ({ s1 with now := target to s } : St).arr ∧
+          ∀ x ∈ pre, x.1 ≤ ({ s1 with now := target to s } : St).now :=
+        ⟨pre, by simp only []; rw [a1]; exact hsplit, fun y hy => by have := hpast y hy; simp only []; omega⟩
+      have hfut1 : ∀ x ∈ ({ s1 with now := target to s } : St).arr, ({ s1 with now := target to s } : St).now ≤ x.1 := by
+        intro y hy; simp only [] at hy ⊢; rw [a1] at hy; exact hhead y hy
+      have hp1 : PInv iv { s1 with now := target to s } := ⟨p1.fst, p1.rest⟩
+      have hq1 : ({ s1 with now := target to s } : St).lastPong ≤ ({ s1 with now := target to s } : St).now := by
+        simp only []; rw [a2]; have := h.qn; omega
+      rcases acase with ⟨b1, b2, b3, b4⟩ | ⟨b1, b2, b3, b4⟩
+      · -- no ping fell due
+        refine ⟨hpre1, hfut1, hp1, by simp only []; rw [b2]; exact b4, htz, hq1, ?_⟩
+        simp only []
+        rw [b1, a2, b2, b3, a1]
+        rcases h.st with hst | ⟨h1, h2, h3, h4, h5, h6⟩
+        · exact Or.inl hst
+        · refine Or.inr ⟨h1, h2, h3, by omega, ?_, h6⟩
+          -- the sleep ends at the answer's arrival at the latest (or at the horizon)
+          by_cases hh : s.lastPing + to < horizon
+          · obtain ⟨b, hb, _, hb2⟩ := h6 hh
+            have := hhead _ hb; simp only [] at this; omega
+          · omega
+      · -- one ping fell due at `s.wake ≤ t`
+        have hfl : (fire iv s).lastPing = (if s.first then s.lastPing else
+            if s.lastPong < s.lastPing then s.lastPing else s.wake) := by
+          unfold fire; split <;> simp
+        by_cases hf : s.first = true
+        · -- the silent first wait is over: nothing is stamped
+          have hlp0 : s.lastPing = 0 := (h.pinv.fst hf).2.2
+          refine ⟨hpre1, hfut1, hp1, by simp only []; rw [b2]; omega, htz, hq1, ?_⟩
           simp only []
-          have hsuf : Sorted ((a, k) :: rest) := by
-            have := hs0; rw [hsplit, harr] at this; exact sorted_suffix this
-          have hay : a ≤ y.1 := by
-            rw [harr] at hy
-            rcases List.mem_cons.mp hy with rfl | hh
-            · exact Nat.le_refl _
-            · exact (List.pairwise_cons.mp hsuf).1 y hh
-          have hna : s.now < a := by
-            simp only [ready, harr, decide_eq_false_iff_not, Nat.not_le] at hr'; exact hr'
-          split <;> omega
-      · have p := pinv_advance iv (target to s + 2) s (target to s) h.pinv
-        exact ⟨p.fst, p.rest⟩
-    exact ninv_consume iv horizon arr0 hs0 _ hmid
+          rw [b1, hfl, a2]
+          simp only [hf, ↓reduceIte]
+          rcases h.st with hst | ⟨_, h2, _⟩
+          · exact Or.inl hst
+          · rw [hf] at h2; cases h2
+        · have hf' : s.first = false := by simpa using hf
+          obtain ⟨hw, _, _, _⟩ := h.pinv.rest hf'
+          rcases h.st with ⟨h1, h2⟩ | ⟨h1, h2, h3, h4, h5, h6⟩
+          · -- the previous ping was answered: this one is stamped at its tick `w = k·iv`
+            have hnl : ¬ s.lastPong < s.lastPing := by omega
+            have hqw : s.lastPong ≤ s.wake := by have := h.qn; have := h.due; omega
+            refine ⟨hpre1, hfut1, hp1, by simp only []; rw [b2]; omega, htz, hq1, ?_⟩
+            simp only []
+            rw [b1, hfl, a2, b2, b3, a1]
+            simp only [hf', Bool.false_eq_true, ↓reduceIte, hnl]
+            by_cases heq : s.lastPong = s.wake
+            · exact Or.inl ⟨by omega, by omega⟩
+            · refine Or.inr ⟨by omega, by first | rfl | trivial, by first | rfl | trivial, b4, by omega, fun hh => ?_⟩
+              obtain ⟨a, hmem, ha1, ha2⟩ := hr.answered (s.pings.length + 2) (by omega) (by rw [← hw]; exact hh)
+              rw [← hw] at ha1 ha2
+              refine ⟨a, ?_, ha1, ha2⟩
+              rw [hsplit] at hmem
+              rcases List.mem_append.mp hmem with hh' | hh'
+              · have := hpast _ hh'; simp only [] at this; have := h.due; omega
+              · exact hh'
+          · -- a ping cannot fall due while another one is outstanding: its window closes before the next tick
+            exfalso
+            have : target to s ≤ s.lastPing + to := by
+              by_cases hh : s.lastPing + to < horizon
+              · obtain ⟨b, hb, _, hb2⟩ := h6 hh
+                have := hhead _ hb; simp only [] at this; omega
+              · omega
+            omega
+    exact ainv_consume iv to horizon arr0 hs0 _ hmid
 
-theorem ninv_init (iv horizon : Nat) (arr0 : List (Nat × Kind)) (sched : List Bool) :
-    NInv iv horizon arr0 (init iv arr0 sched) :=
-  ⟨⟨[], rfl, by simp, rfl⟩, fun _ _ => Nat.zero_le _, pinv_init iv arr0 sched, Nat.zero_le _, Nat.zero_le _⟩
+theorem ainv_init (iv to horizon : Nat) (arr0 : List (Nat × Kind)) (sched : List Bool) :
+    AInv iv to horizon arr0 (init iv arr0 sched) :=
+  ⟨⟨[], rfl, by simp⟩, fun _ _ => Nat.zero_le _, pinv_init iv arr0 sched, Nat.zero_le _, Nat.zero_le _, Nat.le_refl _,
+    Or.inl ⟨Nat.le_refl _, Nat.zero_le _⟩⟩
 
-/-- **no false positive** — a responsive peer is never reported, whatever the data traffic, the schedule,
-    the horizon and the fuel -/
-theorem loop_no_report (iv to horizon : Nat) (arr0 : List (Nat × Kind)) (hiv : 0 < iv) (hto : to < iv)
-    (hr : Responsive iv to horizon arr0) : ∀ (fuel : Nat) (s : St), NInv iv horizon arr0 s →
+/-- **no false positive** — a peer that answers every ping within the timeout is never reported, whatever else it sends,
+    whatever the schedule, the horizon and the fuel -/
+theorem loop_no_report (iv to horizon : Nat) (arr0 : List (Nat × Kind)) (hto : to < iv)
+    (hr : Answering iv to horizon arr0) : ∀ (fuel : Nat) (s : St), AInv iv to horizon arr0 s →
     (loop iv to horizon fuel s).2 = none := by
   intro fuel
   induction fuel with
@@ -310,8 +261,8 @@ theorem loop_no_report (iv to horizon : Nat) (arr0 : List (Nat × Kind)) (hiv : 
     · rfl
     · rename_i hc
       have hcut : (!ready s && decide (target to s > horizon)) = false := by simpa using hc
-      have h' := ninv_iter iv to horizon arr0 hiv hr.sorted s h hcut
-      simp only [ninv_good iv to horizon arr0 hto hr _ h', Bool.false_eq_true, ↓reduceIte]
+      have h' := ainv_iter iv to horizon arr0 hto hr s h hcut
+      simp only [ainv_good iv to horizon arr0 _ h', Bool.false_eq_true, ↓reduceIte]
       exact ih _ h'
 
 end WS.Lemmas.Keepalive
